@@ -1,7 +1,7 @@
 import Proofs.Lemmas.HeapInv
 /-!
-C06 helper lemmas, part 3: reading commutes with forgetting identities; what
-identities a value read from a place carries; evaluation of right-hand sides.
+C06 helper lemmas: reading commutes with forgetting identities; what a copy
+(`CloneArrayValue`, recursive) looks like; evaluation of literals and right-hand sides.
 -/
 namespace Proofs.Heap
 open Model.Heap
@@ -35,10 +35,6 @@ theorem abs_setProp (s : St) (h p : Nat) (v : Val) :
   simp only [Spec.Val.St.setProp, St.setProp, abs, List.getElem?_map]
   cases s.objs[h]? <;> simp [List.map_set]
 
-theorem getVal?_erase (kids : List Slot) (j : Nat) :
-    ((eraseL kids)[j]?).map (·.2) = (getVal? kids j).map eraseVal := by
-  simp [eraseL_getElem?, getVal?, Option.map_map, Function.comp_def]
-
 theorem abs_read (s : St) : (pl : Place) → Spec.Val.read (abs s) pl = (readPlace s pl).map eraseVal
   | .var x => by simp [Spec.Val.read, readPlace, abs_varVal?]
   | .prop x p => by
@@ -55,7 +51,7 @@ theorem abs_read (s : St) : (pl : Place) → Spec.Val.read (abs s) pl = (readPla
           simp only [Option.map_some, eraseVal, tkeys_eraseL]
           cases Keys.find k (keys kids) with
           | none => simp [eraseVal]
-          | some j => simp [getVal?_erase]
+          | some j => simp [getVal?_eraseL]
 
 theorem readPlace_next (s : St) (n : Nat) (pl : Place) : readPlace { s with next := n } pl = readPlace s pl := by
   induction pl with
@@ -84,78 +80,98 @@ theorem readPlace_root (s : St) (pl : Place) (hr : pl.isRoot = true) (v : Val) (
     | some hd => exact ⟨.p hd p, by simp [rootPos, hh], by simpa [hh, holder?] using h⟩
   | idx b k => simp [Place.isRoot] at hr
 
-theorem getVal?_aids (kids : List Slot) (j : Nat) (v : Val) (h : getVal? kids j = some v) :
-    ∀ i ∈ v.aids, i ∈ aidsL kids := by
-  intro i hi
-  simp only [getVal?] at h
-  cases hs : kids[j]? with
-  | none => simp [hs] at h
-  | some sl =>
-    simp [hs] at h
-    exact (mem_aidsL i kids).mpr ⟨sl, List.mem_of_getElem? hs, by rw [h]; exact hi⟩
+/-! ### `CloneArrayValue` (recursive): same value, every identity fresh and used once -/
 
-/-- a value read from a place is a holder's value, or lies strictly inside one -/
-theorem read_aids (s : St) : (pl : Place) → (v : Val) → readPlace s pl = some v →
-    (∃ P, holder? s P = some v) ∨ (∀ i ∈ v.aids, InnerOf s i)
-  | .var x, v, h => by
-      obtain ⟨P, _, hP⟩ := readPlace_root s (.var x) rfl v h
-      exact Or.inl ⟨P, hP⟩
-  | .prop x p, v, h => by
-      obtain ⟨P, _, hP⟩ := readPlace_root s (.prop x p) rfl v h
-      exact Or.inl ⟨P, hP⟩
-  | .idx b k, v, h => by
-      simp only [readPlace] at h
-      cases hb : readPlace s b with
-      | none => simp [hb] at h
-      | some u =>
-        cases u with
-        | sc sc => simp [hb] at h
-        | arr a kids =>
-          simp only [hb] at h
-          right
-          intro i hi
-          have hin : i ∈ aidsL kids := by
-            cases hf : Keys.find k (keys kids) with
-            | none => simp [hf] at h; subst h; simp [Val.aids] at hi
-            | some j => simp only [hf] at h; exact getVal?_aids kids j v h i hi
-          rcases read_aids s b (.arr a kids) hb with ⟨P, hP⟩ | hall
-          · exact ⟨P, _, hP, by simpa [innerAids] using hin⟩
-          · exact hall i (by simp [Val.aids, hin])
+/-- `f` counts identities from `[n, n')`, each at most once -/
+def FreshIn (f : Nat → Nat) (n n' : Nat) : Prop := ∀ i, f i ≤ 1 ∧ (0 < f i → n ≤ i ∧ i < n')
 
-theorem read_inner (s : St) (pl : Place) (v : Val) (h : readPlace s pl = some v) :
-    ∀ i ∈ innerAids v, InnerOf s i := by
-  intro i hi
-  rcases read_aids s pl v h with ⟨P, hP⟩ | hall
-  · exact ⟨P, v, hP, hi⟩
-  · exact hall i (innerAids_sub v i hi)
+theorem deepCopy_arr (a : Nat) (kids : List Slot) (n : Nat) :
+    Val.deepCopy (.arr a kids) n = (.arr n (deepCopyL kids (n + 1)).1, (deepCopyL kids (n + 1)).2) := by
+  simp only [Val.deepCopy]
 
-/-! ### `CloneArrayValue` -/
+theorem deepCopyL_cons (c : Nat) (k : Key) (v : Val) (r : List Slot) (n : Nat) :
+    deepCopyL ((c, k, v) :: r) n =
+      ((match v with | .sc _ => c | .arr _ _ => n, k, (v.deepCopy (n + 1)).1) ::
+          (deepCopyL r (v.deepCopy (n + 1)).2).1, (deepCopyL r (v.deepCopy (n + 1)).2).2) := by
+  simp only [deepCopyL]; rfl
 
+mutual
+theorem deepCopy_spec : (v : Val) → (n : Nat) →
+    eraseVal (v.deepCopy n).1 = eraseVal v ∧ n ≤ (v.deepCopy n).2 ∧
+      FreshIn (fun i => vcnt i (v.deepCopy n).1) n (v.deepCopy n).2
+  | .sc s, n => by simp [Val.deepCopy, FreshIn, vcnt]
+  | .arr a kids, n => by
+      obtain ⟨h1, h2, h3⟩ := deepCopyL_spec kids (n + 1)
+      rw [deepCopy_arr]
+      refine ⟨by simp [eraseVal, h1], by simp only; omega, ?_⟩
+      intro i
+      obtain ⟨f1, f2⟩ := h3 i
+      simp only [vcnt] at f1 f2 ⊢
+      by_cases e : n = i
+      · subst e
+        simp only [if_true]
+        rcases Nat.eq_zero_or_pos (cntL n (deepCopyL kids (n + 1)).1) with h0 | hp
+        · omega
+        · have := f2 hp; omega
+      · simp only [e, if_false]
+        constructor
+        · omega
+        · intro hp; have := f2 (by omega); omega
+theorem deepCopyL_spec : (l : List Slot) → (n : Nat) →
+    eraseL (deepCopyL l n).1 = eraseL l ∧ n ≤ (deepCopyL l n).2 ∧
+      FreshIn (fun i => cntL i (deepCopyL l n).1) n (deepCopyL l n).2
+  | [], n => by simp [deepCopyL, FreshIn, cntL]
+  | (c, k, v) :: r, n => by
+      obtain ⟨a1, a2, a3⟩ := deepCopy_spec v (n + 1)
+      obtain ⟨b1, b2, b3⟩ := deepCopyL_spec r (v.deepCopy (n + 1)).2
+      rw [deepCopyL_cons]
+      refine ⟨by simp [eraseL, a1, b1], by simp only; omega, ?_⟩
+      intro i
+      obtain ⟨f1, f2⟩ := a3 i
+      obtain ⟨g1, g2⟩ := b3 i
+      simp only [cntL] at f1 f2 g1 g2 ⊢
+      rcases Nat.eq_zero_or_pos (vcnt i (v.deepCopy (n + 1)).1) with h0 | hp
+      · rcases Nat.eq_zero_or_pos (cntL i (deepCopyL r (v.deepCopy (n + 1)).2).1) with k0 | kp
+        · omega
+        · have := g2 kp; omega
+      · have := f2 hp
+        rcases Nat.eq_zero_or_pos (cntL i (deepCopyL r (v.deepCopy (n + 1)).2).1) with k0 | kp
+        · omega
+        · have := g2 kp; omega
+end
+
+theorem cloneOnStore_fixed (v : Val) (n : Nat) : cloneOnStore .fixed v n = v.deepCopy n := by
+  simp [cloneOnStore, Cfg.fixed]
+
+/-- the copy made at a store: same value, fresh identities -/
 theorem cloneOnStore_spec (v : Val) (n : Nat) :
-    eraseVal (cloneOnStore v n).1 = eraseVal v ∧ n ≤ (cloneOnStore v n).2 ∧
-    innerAids (cloneOnStore v n).1 = innerAids v ∧
-    (∀ a k, (cloneOnStore v n).1 = .arr a k → a = n ∧ (cloneOnStore v n).2 = n + 1 ∧ innerAids v = aidsL k) := by
-  cases v with
-  | sc sc => simp [cloneOnStore]
-  | arr a kids => simp [cloneOnStore, eraseVal, innerAids]
+    eraseVal (cloneOnStore .fixed v n).1 = eraseVal v ∧ n ≤ (cloneOnStore .fixed v n).2 ∧
+      FreshIn (fun i => vcnt i (cloneOnStore .fixed v n).1) n (cloneOnStore .fixed v n).2 := by
+  rw [cloneOnStore_fixed]; exact deepCopy_spec v n
+
+/-- a fresh copy does not occur in a state whose allocator is not beyond its identities -/
+theorem fresh_for {s : St} (hinv : Inv s) (f : Nat → Nat) (n n' m : Nat) (hf : FreshIn f n n')
+    (hn : s.next ≤ n) (hm : n' ≤ m) : ∀ i, f i ≤ 1 ∧ (0 < f i → scnt s i = 0 ∧ i < m) := by
+  intro i
+  obtain ⟨f1, f2⟩ := hf i
+  refine ⟨f1, fun hp => ?_⟩
+  have := f2 hp
+  exact ⟨hinv.fresh i (by omega), by omega⟩
 
 /-! ### literals and right-hand sides -/
 
 mutual
 theorem alloc_spec (s : St) : (l : Lit) → (nx : Nat) →
     (match Lit.alloc .fixed s l nx with
-     | some (v, n) => Spec.Val.litTree (abs s) l = some (eraseVal v) ∧ nx ≤ n ∧
-         (∀ i ∈ innerAids v, InnerOf s i ∨ (nx ≤ i ∧ i < n))
+     | some (v, n) => Spec.Val.litTree (abs s) l = some (eraseVal v) ∧ nx ≤ n
      | none => Spec.Val.litTree (abs s) l = none)
-  | .int n, nx => by simp [Lit.alloc, Spec.Val.litTree, eraseVal, innerAids]
-  | .null, nx => by simp [Lit.alloc, Spec.Val.litTree, eraseVal, innerAids]
+  | .int n, nx => by simp [Lit.alloc, Spec.Val.litTree, eraseVal]
+  | .null, nx => by simp [Lit.alloc, Spec.Val.litTree, eraseVal]
   | .rd p, nx => by
       simp only [Lit.alloc, Spec.Val.litTree, abs_read]
       cases h : readPlace s p with
       | none => simp
-      | some v =>
-        simp only [Option.map_some]
-        exact ⟨trivial, Nat.le_refl _, fun i hi => Or.inl (read_inner s p v h i hi)⟩
+      | some v => simp
   | .arr items, nx => by
       have ih := allocL_spec s items (nx + 1)
       simp only [Lit.alloc, Spec.Val.litTree]
@@ -164,20 +180,14 @@ theorem alloc_spec (s : St) : (l : Lit) → (nx : Nat) →
       | some r =>
         obtain ⟨kids, n⟩ := r
         simp only [h] at ih
-        obtain ⟨h1, h2, h3⟩ := ih
+        obtain ⟨h1, h2⟩ := ih
         simp only [h1, Option.map_some, eraseVal]
-        refine ⟨trivial, by omega, ?_⟩
-        intro i hi
-        simp only [innerAids] at hi
-        rcases h3 i hi with h | h
-        · exact Or.inl h
-        · exact Or.inr ⟨by omega, h.2⟩
+        exact ⟨trivial, by omega⟩
 theorem allocL_spec (s : St) : (items : List (Key × Lit)) → (nx : Nat) →
     (match allocL .fixed s items nx with
-     | some (kids, n) => Spec.Val.treeL (abs s) items = some (eraseL kids) ∧ nx ≤ n ∧
-         (∀ i ∈ aidsL kids, InnerOf s i ∨ (nx ≤ i ∧ i < n))
+     | some (kids, n) => Spec.Val.treeL (abs s) items = some (eraseL kids) ∧ nx ≤ n
      | none => Spec.Val.treeL (abs s) items = none)
-  | [], nx => by simp [allocL, Spec.Val.treeL, eraseL, aidsL]
+  | [], nx => by simp [allocL, Spec.Val.treeL, eraseL]
   | (k, l) :: r, nx => by
       have ih1 := alloc_spec s l (nx + 1)
       simp only [allocL, Spec.Val.treeL]
@@ -186,78 +196,76 @@ theorem allocL_spec (s : St) : (items : List (Key × Lit)) → (nx : Nat) →
       | some vn =>
         obtain ⟨v, n1⟩ := vn
         simp only [h] at ih1
-        obtain ⟨e1, b1, a1⟩ := ih1
-        obtain ⟨ce, cn, ci, cr⟩ := cloneOnStore_spec v n1
-        simp only [Cfg.fixed, if_true]
-        have ih2 := allocL_spec s r (cloneOnStore v n1).2
-        cases h2 : allocL .fixed s r (cloneOnStore v n1).2 with
+        obtain ⟨e1, b1⟩ := ih1
+        obtain ⟨ce, cn, _⟩ := cloneOnStore_spec v n1
+        simp only [show Cfg.fixed.cloneOnElemStore = true from rfl, if_true]
+        have ih2 := allocL_spec s r (cloneOnStore .fixed v n1).2
+        cases h2 : allocL .fixed s r (cloneOnStore .fixed v n1).2 with
         | none =>
-          simp only [Cfg.fixed] at h2
-          simp only [h2]
-          simp only [Cfg.fixed, h2] at ih2
+          simp only [h2] at ih2
           simp [e1, ih2]
         | some rn =>
           obtain ⟨rest, n2⟩ := rn
-          simp only [Cfg.fixed] at h2
-          simp only [h2]
-          simp only [Cfg.fixed, h2] at ih2
-          obtain ⟨e2, b2, a2⟩ := ih2
-          refine ⟨by simp [e1, e2, eraseL, ce], by omega, ?_⟩
-          intro i hi
-          simp only [aidsL, List.mem_append] at hi
-          rcases hi with hi | hi
-          · -- identities of the (copied) item
-            cases hv : (cloneOnStore v n1).1 with
-            | sc sc => rw [hv] at hi; simp [Val.aids] at hi
-            | arr a kk =>
-              rw [hv] at hi
-              obtain ⟨ea, en, ei⟩ := cr a kk hv
-              simp only [Val.aids, List.mem_cons] at hi
-              rcases hi with hi | hi
-              · exact Or.inr ⟨by omega, by omega⟩
-              · have : i ∈ innerAids v := by rw [ei]; exact hi
-                rcases a1 i this with h' | h'
-                · exact Or.inl h'
-                · exact Or.inr ⟨by omega, by omega⟩
-          · rcases a2 i hi with h' | h'
-            · exact Or.inl h'
-            · exact Or.inr ⟨by omega, h'.2⟩
+          simp only [h2] at ih2
+          obtain ⟨e2, b2⟩ := ih2
+          exact ⟨by simp [e1, e2, eraseL, ce], by omega⟩
 end
 
-/-- evaluating a right-hand side only advances the allocator; the value denotes what
-the spec computes, and the identities inside it are inner identities of the state or fresh -/
-theorem evalRV_spec (s : St) (r : RV) :
-    (match evalRV .fixed s r with
-     | some (v, s1) => Spec.Val.evalRV (abs s) r = some (eraseVal v) ∧ s1 = { s with next := s1.next } ∧
-         s.next ≤ s1.next ∧ (∀ i ∈ innerAids v, InnerOf s i ∨ (s.next ≤ i ∧ i < s1.next))
-     | none => Spec.Val.evalRV (abs s) r = none) := by
+/-- evaluating a right-hand side only advances the allocator, and the value denotes what
+the spec computes -/
+theorem evalRV_cases (s : St) (r : RV) :
+    (evalRV .fixed s r = none ∧ Spec.Val.evalRV (abs s) r = none) ∨
+    ∃ v n1, evalRV .fixed s r = some (v, { s with next := n1 }) ∧
+      Spec.Val.evalRV (abs s) r = some (eraseVal v) ∧ s.next ≤ n1 := by
   cases r with
-  | int n => simp [evalRV, Spec.Val.evalRV, eraseVal, innerAids]
-  | null => simp [evalRV, Spec.Val.evalRV, eraseVal, innerAids]
+  | int n => exact Or.inr ⟨_, s.next, rfl, rfl, Nat.le_refl _⟩
+  | null => exact Or.inr ⟨_, s.next, rfl, rfl, Nat.le_refl _⟩
   | rd p =>
-    simp only [evalRV, Spec.Val.evalRV, abs_read]
     cases h : readPlace s p with
-    | none => simp
+    | none => exact Or.inl ⟨by simp [evalRV, h], by simp [Spec.Val.evalRV, abs_read, h]⟩
     | some v =>
-      simp only [Option.map_some]
-      exact ⟨trivial, trivial, Nat.le_refl _, fun i hi => Or.inl (read_inner s p v h i hi)⟩
+      exact Or.inr ⟨v, s.next, by simp [evalRV, h], by simp [Spec.Val.evalRV, abs_read, h], Nat.le_refl _⟩
   | call p =>
-    simp only [evalRV, Spec.Val.evalRV, abs_read]
     cases h : readPlace s p with
-    | none => simp
+    | none => exact Or.inl ⟨by simp [evalRV, h], by simp [Spec.Val.evalRV, abs_read, h]⟩
     | some v =>
-      simp only [Option.map_some]
-      exact ⟨trivial, trivial, Nat.le_refl _, fun i hi => Or.inl (read_inner s p v h i hi)⟩
+      exact Or.inr ⟨v, s.next, by simp [evalRV, h], by simp [Spec.Val.evalRV, abs_read, h], Nat.le_refl _⟩
   | lit l =>
     have := alloc_spec s l s.next
-    simp only [evalRV, Spec.Val.evalRV]
     cases h : Lit.alloc .fixed s l s.next with
-    | none => simp only [h] at this; simp [this]
+    | none => simp only [h] at this; exact Or.inl ⟨by simp [evalRV, h], by simp [Spec.Val.evalRV, this]⟩
     | some vn =>
       obtain ⟨v, n⟩ := vn
       simp only [h] at this
-      obtain ⟨e, b, a⟩ := this
-      simp only [Option.map_some]
-      exact ⟨e, trivial, b, a⟩
+      obtain ⟨e, b⟩ := this
+      exact Or.inr ⟨v, n, by simp [evalRV, h], by simp [Spec.Val.evalRV, e], b⟩
+
+/-! ### objects -/
+
+theorem cntVs_cons (a : Nat) (v : Val) (r : List Val) : cntVs a (v :: r) = vcnt a v + cntVs a r := rfl
+
+/-- `cloneProps`: same values up to identity, all identities fresh and used once -/
+theorem cloneProps_spec : (ps : List Val) → (n : Nat) →
+    ((cloneProps .fixed ps n).1.map eraseVal = ps.map eraseVal) ∧ n ≤ (cloneProps .fixed ps n).2 ∧
+    FreshIn (fun i => cntVs i (cloneProps .fixed ps n).1) n (cloneProps .fixed ps n).2
+  | [], n => by simp [cloneProps, FreshIn, cntVs, wsum]
+  | v :: r, n => by
+      obtain ⟨ce, cn, cf⟩ := cloneOnStore_spec v n
+      obtain ⟨e, le, fr⟩ := cloneProps_spec r (cloneOnStore .fixed v n).2
+      simp only [cloneProps]
+      refine ⟨by simp [ce, e], by omega, ?_⟩
+      intro i
+      obtain ⟨f1, f2⟩ := cf i
+      obtain ⟨g1, g2⟩ := fr i
+      simp only [cntVs_cons] at g1 g2 ⊢
+      simp only at f1 f2
+      rcases Nat.eq_zero_or_pos (vcnt i (cloneOnStore .fixed v n).1) with h0 | hp
+      · rcases Nat.eq_zero_or_pos (cntVs i (cloneProps .fixed r (cloneOnStore .fixed v n).2).1) with k0 | kp
+        · omega
+        · have := g2 kp; omega
+      · have := f2 hp
+        rcases Nat.eq_zero_or_pos (cntVs i (cloneProps .fixed r (cloneOnStore .fixed v n).2).1) with k0 | kp
+        · omega
+        · have := g2 kp; omega
 
 end Proofs.Heap
